@@ -151,11 +151,14 @@ def specCheck (r : Req) (minS maxS step : Float) (v : Array Float) : Option Stri
     let s := at0 r.sweep k
     let j := binOf s
     let gj := ofNat j * step + minS
-    let t := (s - gj) / step
+    -- inside the range the value is the linear interpolation; outside it is the end grid value
+    -- (weight clamped to [0,1]: `interp_range_all`)
+    let t0 := (s - gj) / step
+    let t := if t0 < 0 then 0 else if t0 > 1 then 1 else t0
     let lo := at0 G j
     let hi := at0 G (j+1)
     let P := lo + (hi - lo) * t
-    let tol := tolAt j s
+    let tol := tolAt j (if s < minS then minS else if s > maxS then maxS else s)
     let x := at0 v k
     if !(absF (x - P) ≤ tol) then return some (fmtIdx "interp" k)
     let mn := if lo ≤ hi then lo else hi
@@ -169,7 +172,8 @@ def specCheck (r : Req) (minS maxS step : Float) (v : Array Float) : Option Stri
       let b := idx.getD (q+1) 0
       let s := at0 r.sweep a
       let j0 := Nat.min (n - 1) (floorNat ((s - minS) / step))
-      if !(at0 v b ≤ at0 v a + tolAt j0 s) then return some (fmtIdx "sweep_antitone" b)
+      let sc := if s < minS then minS else if s > maxS then maxS else s
+      if !(at0 v b ≤ at0 v a + tolAt j0 sc) then return some (fmtIdx "sweep_antitone" b)
   return none
 
 def handleKde (args impl : List String) : Option Reply := do
@@ -219,14 +223,23 @@ def handleKde (args impl : List String) : Option Reply := do
         -- the structural clauses need the implementation's grid: the first `bins` sweep points
         let gridGiven := r.sweep.size ≥ r.nbins &&
           (List.range r.nbins).all fun i => (at0 r.sweep i).toBits == (at0 grid i).toBits
-        -- (the code's last grid point `(bins-1)·step + min` may exceed `max` by an ulp: grid points are exempt)
-        let inRange := (r.sweep.extract r.nbins r.sweep.size).all fun s => minS ≤ s && s ≤ maxS
-        if !gridGiven || !inRange then
-          -- only the range clause can be evaluated
-          if iv.all (fun x => 0 ≤ x && x ≤ 1) || !inRange then "na" else "bad:range"
+        let degenerate := distinctCount d < 2 || distinctCount t < 2
+        -- outside the precondition: a non-finite score (a degenerate discriminant)
+        if r.scores.any (fun x => x.isNaN || x.isInf) then "na" else
+        if !gridGiven then
+          -- only the range clause can be evaluated (on the finite query points)
+          let fin := (List.range iv.size).filter fun k => let q := at0 r.sweep k; !(q.isNaN || q.isInf)
+          if fin.all (fun k => 0 ≤ at0 iv k && at0 iv k ≤ 1) then "na"
+          else if degenerate && iv.any (·.isNaN) then "bad:nan_zero_variance_class"
+          else "bad:range"
         else
-          let degenerate := distinctCount d < 2 || distinctCount t < 2
-          match specCheck r minS maxS step iv with
+          -- non-finite QUERY points are outside the statement (NaN in, NaN out): dropped before the check;
+          -- finite query points outside [min,max] stay in: the value there must be the end grid value
+          let keep := (List.range iv.size).filter fun k =>
+            k < r.nbins || !((at0 r.sweep k).isNaN || (at0 r.sweep k).isInf)
+          let r' : Req := { r with sweep := (keep.map (at0 r.sweep)).toArray }
+          let iv' : Array Float := (keep.map (at0 iv)).toArray
+          match specCheck r' minS maxS step iv' with
           | none => "ok"
           | some clause =>
             if degenerate then
@@ -255,7 +268,8 @@ relative `≤ 2⁻²⁴`, which changes a kernel value `exp(-z²/2)` by the fact
 `log10 P(s+δ) − a ≤ reported ≤ log10 P(s−δ) + a`, `a = 8e-5 + 4·2⁻²³·|log10 P|` (4 f32 ulps). Where the
 model PEP is below `1e-290` (kernel values about to underflow, relative accuracy lost) the `-324` floor is
 accepted as well and the upper bound is widened by 1. The floor itself is accepted only when `P(s+δ) = 0`
-(or `< 1e-290`). A fit that failed must leave `discriminant_score = 0.0`, `posterior_error = 1.0`
+(or `< 1e-290`). A class with fewer than two distinct reported scores is outside the precondition (`na`).
+A fit that failed must leave `discriminant_score = 0.0`, `posterior_error = 1.0`
 (the values `Scorer` initialises; `score_psms` returns `None` before touching them).
 -/
 
@@ -291,7 +305,12 @@ def handlePsm (args impl : List String) : Option Reply := do
     return { model := "0 -", agree := bad.isEmpty, spec := verdict }
   let scores := rows.map (·.disc.toFloat)
   let decoys := rows.map (·.decoy)
-  match build floatFns scores decoys 1000 1.0 true with
+  -- outside the precondition (and beyond what the f32 scores can tell): a class whose reported
+  -- discriminant scores are all equal in f32 — the f64 scores the code used may still differ in their last
+  -- bits (bandwidth ~1e-17, spiky but finite densities) or be equal (the zero-variance finding of op `kde`)
+  if distinctCount (classOf true scores decoys) < 2 || distinctCount (classOf false scores decoys) < 2 then
+    return { model := "-", agree := true, spec := "na" }
+  match buildDefault floatFns scores decoys with
   | none => return { model := "-", agree := false, spec := "na" }
   | some e =>
     let smax := scores.foldl (fun a b => if a < absF b then absF b else a) 0
